@@ -6,6 +6,7 @@ pub mod c04;
 pub mod c05;
 pub mod c06;
 pub mod c08;
+pub mod c09;
 pub mod c12;
 pub mod c14;
 pub mod c16;
@@ -20,6 +21,7 @@ pub fn run(ctx: &Ctx) -> bool {
         "C05" => c05::run(ctx),
         "C06" => c06::run(ctx),
         "C08" => c08::run(ctx),
+        "C09" => c09::run(ctx),
         "C12" => c12::run(ctx),
         "C14" => c14::run(ctx),
         "C16" => c16::run(ctx),
@@ -39,6 +41,7 @@ fn replay_one(ctx: &Ctx, sub: &str, input: &serde_json::Value) -> Option<Result<
         "C05" => c05::replay(ctx, sub, input),
         "C06" => c06::replay(ctx, sub, input),
         "C08" => c08::replay(ctx, sub, input),
+        "C09" => c09::replay(ctx, sub, input),
         "C12" => c12::replay(ctx, sub, input),
         "C14" => c14::replay(ctx, input),
         "C16" => c16::replay(ctx, sub, input),
